@@ -145,6 +145,8 @@ int do_op (string line) {
   case "drop": obs[a] = 0; break;
   case "call": hs[a] = obs[b]->docall (a, c, v[d], v[e]); break;
   case "rmcall": remove_call_out (hs[a]); break;
+  case "rmcalln": obs[b]->rmbyname (a); break;
+  case "rmall": obs[a]->rmallcalls (); break;
   case "sent": obs[b]->doact (a, v[c], v[d]); break;
   case "rmsent": obs[b]->rmact (a); break;
   case "newmstr": v[a] = w[2]; break;            // a run-time built (malloc) string
